@@ -15,14 +15,15 @@ import (
 // C16 Timestamp codec: through the public writers and readers only, batched documents of up to 10 000 instants.
 
 type c16Format struct {
-	name   string
-	unit   int64 // ns per representable step (0 for STL: frame based)
-	fps    int64 // STL only
-	maxH   int64 // exclusive bound in hours
-	tcp    int64 // STL only: timecode start of programme (ns), added to every boundary in the file
-	write  func(s astisub.Subtitles, b *bytes.Buffer) error
-	read   func(b []byte) (*astisub.Subtitles, error)
-	decode func(b []byte) ([]int64, string) // independent decoder: instants in document order, or a grammar error
+	name    string
+	unit    int64 // ns per representable step (0 for STL: frame based)
+	fps     int64 // STL only
+	maxH    int64 // exclusive bound in hours
+	tcp     int64 // STL only: timecode start of programme (ns), added to every boundary in the file
+	metaFps int   // STL only: the frame rate named by the metadata when it is not the one the file is written at
+	write   func(s astisub.Subtitles, b *bytes.Buffer) error
+	read    func(b []byte) (*astisub.Subtitles, error)
+	decode  func(b []byte) ([]int64, string) // independent decoder: instants in document order, or a grammar error
 }
 
 func c16Floor(f *c16Format, t int64) int64 {
@@ -111,6 +112,9 @@ func c16DecodeSTL(fps int64, maxHours int64) func(b []byte) ([]int64, string) {
 		if len(b) < 1024 || (len(b)-1024)%128 != 0 {
 			return nil, fmt.Sprintf("file size %d is not 1024 + 128n", len(b))
 		}
+		if dfc := string(b[3:11]); dfc != fmt.Sprintf("STL%d.01", fps) {
+			return nil, fmt.Sprintf("the file declares disk format %q, the frames are expected at %d fps", dfc, fps)
+		}
 		var out []int64
 		for off := 1024; off < len(b); off += 128 {
 			for _, p := range []int{5, 9} {
@@ -169,6 +173,20 @@ var c16Formats = []*c16Format{
 			return astisub.ReadFromSTL(bytes.NewReader(b), astisub.STLOptions{})
 		},
 		decode: c16DecodeSTL(30, 256)},
+	// lists whose metadata comes from another format and names a frame rate for which no disk format exists: the
+	// file is written at the default rate, and whatever rate it declares is the one its frame numbers count in
+	{name: "stl-meta24", fps: 25, metaFps: 24, maxH: 24,
+		write: func(s astisub.Subtitles, b *bytes.Buffer) error { return s.WriteToSTL(b) },
+		read: func(b []byte) (*astisub.Subtitles, error) {
+			return astisub.ReadFromSTL(bytes.NewReader(b), astisub.STLOptions{})
+		},
+		decode: c16DecodeSTL(25, 24)},
+	{name: "stl-meta60", fps: 25, metaFps: 60, maxH: 24,
+		write: func(s astisub.Subtitles, b *bytes.Buffer) error { return s.WriteToSTL(b) },
+		read: func(b []byte) (*astisub.Subtitles, error) {
+			return astisub.ReadFromSTL(bytes.NewReader(b), astisub.STLOptions{})
+		},
+		decode: c16DecodeSTL(25, 24)},
 }
 
 const c16Doc = 10000 // instants per document
@@ -323,7 +341,11 @@ func c16Run(c *fw.Ctx) fw.Outcome {
 	sub := astisub.NewSubtitles()
 	if f.fps > 0 {
 		cd := time.Date(2020, 1, 2, 0, 0, 0, 0, time.UTC)
-		sub.Metadata = &astisub.Metadata{Framerate: int(f.fps), STLDisplayStandardCode: "0", STLCreationDate: &cd, STLRevisionDate: &cd, STLTimecodeStartOfProgramme: time.Duration(f.tcp)}
+		mf := int(f.fps)
+		if f.metaFps != 0 {
+			mf = f.metaFps
+		}
+		sub.Metadata = &astisub.Metadata{Framerate: mf, STLDisplayStandardCode: "0", STLCreationDate: &cd, STLRevisionDate: &cd, STLTimecodeStartOfProgramme: time.Duration(f.tcp)}
 	}
 	line := []astisub.Line{{Items: []astisub.LineItem{{Text: "x"}}}}
 	for k := 0; k+1 < len(ins); k += 2 {
@@ -401,7 +423,7 @@ func init() {
 		Cases:       c16Total,
 		Exhaustive: func(tier string) string {
 			if tier == "thorough" {
-				return "every millisecond of [0,24h) for all eight format configurations, every second boundary +-1ns, every centisecond (SSA) and frame (STL 25/30) boundary +-1ns; random family sampled"
+				return "every millisecond of [0,24h) for all ten format configurations, every second boundary +-1ns, every centisecond (SSA) and frame (STL 25/30) boundary +-1ns; random family sampled"
 			}
 			return ""
 		},
